@@ -29,9 +29,9 @@ func TestMain(m *testing.M) {
 	vh.Main(m, vh.Meta{
 		ID:    "C08",
 		Level: "exploration",
-		Rule: "rapid-generated PLY files from an independent reference encoder: vertex properties in any order from the recognised groups (x y z, nx ny nz, red green blue [alpha], s t, scale_*, rot_*, f_dc_*, opacity) plus 0..2 unrecognised scalars, one scalar type per group from uchar/int/float/double with alias spellings, comment/obj_info lines, LF or CRLF header endings, optional face element with count type uchar/int/uint, index type int/uint, triangles and quads mixed, optional texcoord float list before or after the index list; ascii / little-endian / big-endian body; float32-exact values. " +
+		Rule: "rapid-generated PLY files from an independent reference encoder: vertex properties in any order from the recognised groups (x y z, nx ny nz, red green blue [alpha], s t, scale_*, rot_*, f_dc_*, opacity) plus 0..2 unrecognised scalars (about 1 file in 30: 40/100/250/600 more of one type on 1..6 vertices, i.e. ascii vertex lines up to ~15 KiB - always below 60 KiB - and binary records up to ~4.8 KB; independently about 1 file in 30: one header comment line of 300/1100/5000 bytes), one scalar type per group from uchar/int/float/double with alias spellings, comment/obj_info lines, LF or CRLF header endings, optional face element with count type uchar/int/uint, index type int/uint, triangles and quads mixed, optional texcoord float list before or after the index list; ascii / little-endian / big-endian body; float32-exact values. " +
 			"Oracle: the mesh computed from the description by the specification (vertex i carries record i, 8-bit values /255, quads give fan triangles (0,1,2),(0,2,3), per-face texcoords compared per corner). " +
-			"Non-trivial = position group not first, or >= 1 non-float type, or an unrecognised property, or a quad. Distinct by case JSON. " +
+			"Non-trivial = position group not first, or >= 1 non-float type, or an unrecognised property, or a quad, or a long comment line. Distinct by case JSON. " +
 			"Sub-check huge-files (hand-built files of 2^24+8 vertices with faces naming vertex numbers beyond 2^24; every case non-trivial).",
 		Assumptions: []string{
 			"one scalar type per property group (the reader documents mixed types inside a group as unsupported); only uchar/int/float/double on vertices, uchar/int/uint counts, int/uint indices, float texcoord list",
@@ -51,7 +51,7 @@ type Case struct {
 
 func genCase(t *rapid.T) Case {
 	ex := 0
-	o := plyref.Opts{ExcludeAsciiUcharScalar: true, Excluded: &ex}
+	o := plyref.Opts{ExcludeAsciiUcharScalar: true, Excluded: &ex, Wide: true}
 	if rapid.IntRange(0, 11).Draw(t, "manyVerts") == 0 {
 		o.MinVerts, o.MaxVerts = 100, 400 // indices beyond 127 / 255
 	}
@@ -110,6 +110,44 @@ func runCase(c Case, o *vh.Obs) *vh.Failure {
 		if len(fc.Idx) == 4 {
 			nontrivial, hasQuad = true, true
 		}
+	}
+	unrecognised := 0
+	for _, p := range f.Props {
+		if p.Group == "" {
+			unrecognised++
+		}
+	}
+	if unrecognised >= plyref.WideExtras {
+		nontrivial = true
+		o.Class("wide/extra-scalars")
+		o.Class(fmt.Sprintf("wide/extra-scalars/%s/%d+", map[bool]string{true: "ascii", false: "binary"}[f.Format == "ascii"], unrecognised/10*10))
+		if f.Format == "ascii" { // longest vertex line (without its line ending)
+			longest, start := 0, enc.HeaderLen
+			for _, tk := range enc.Tokens {
+				if tk.Line && tk.Off <= enc.VertexEnd {
+					if tk.Off-1-start > longest {
+						longest = tk.Off - 1 - start
+					}
+					start = tk.Off
+				}
+			}
+			for _, lim := range []int{1 << 10, 4 << 10, 16 << 10} {
+				if longest >= lim {
+					o.Class(fmt.Sprintf("wide/ascii-vertex-line>=%dKiB", lim>>10))
+				}
+			}
+		} else if len(f.Vals) > 0 {
+			for _, lim := range []int{256, 1 << 10, 4 << 10} {
+				if (enc.VertexEnd-enc.HeaderLen)/len(f.Vals) >= lim {
+					o.Class(fmt.Sprintf("wide/binary-record>=%dB", lim))
+				}
+			}
+		}
+	}
+	if f.LongComment > 0 {
+		nontrivial = true
+		o.Class("wide/long-comment")
+		o.Class(fmt.Sprintf("wide/long-comment/%d", f.LongComment))
 	}
 	if nontrivial {
 		o.NonTrivial()
